@@ -1954,31 +1954,11 @@ func (c *Cache) additionalAnswer(ctx context.Context, msg *dns.Msg) *dns.Msg {
 		respCname, lineage, err := c.internalExchange(ctx, cnameReq)
 		if errors.Is(err, middleware.ErrRecursionWorkLimit) {
 			edeCode, edeText := middleware.RecursionWorkErrorEDE(ctx, err)
-			do := false
-			if opt := msg.IsEdns0(); opt != nil {
-				do = opt.Do()
-			}
-			return dnsutil.SetRcodeWithEDE(
-				msg,
-				dns.RcodeServerFailure,
-				do,
-				edeCode,
-				edeText,
-			)
+			return chaseFailure(msg, edeCode, edeText)
 		}
 		if errors.Is(err, middleware.ErrResolutionAttemptLimit) {
 			edeCode, edeText := dnsutil.ErrorToEDE(err)
-			do := false
-			if opt := msg.IsEdns0(); opt != nil {
-				do = opt.Do()
-			}
-			out := dnsutil.SetRcodeWithEDE(
-				msg,
-				dns.RcodeServerFailure,
-				do,
-				edeCode,
-				edeText,
-			)
+			out := chaseFailure(msg, edeCode, edeText)
 			middleware.MarkRequestLocalFailureResponse(ctx, out, err)
 			return out
 		}
@@ -2038,6 +2018,28 @@ func (c *Cache) additionalAnswer(ctx context.Context, msg *dns.Msg) *dns.Msg {
 	}
 
 	return msg
+}
+
+// chaseFailure is the SERVFAIL a chase ends in when the request tree's own
+// limits stop it. The message being completed may be a cached alias served on
+// a hit: it was stored without an OPT, and an Extended DNS Error has nowhere
+// to go on it. The failure then gets an OPT of its own; the edns writer sets
+// DO and the size for the client, and removes it again for a client that did
+// not use EDNS.
+func chaseFailure(msg *dns.Msg, edeCode uint16, edeText string) *dns.Msg {
+	do := false
+	if opt := msg.IsEdns0(); opt != nil {
+		do = opt.Do()
+	}
+	out := dnsutil.SetRcodeWithEDE(msg, dns.RcodeServerFailure, do, edeCode, edeText)
+	if out.IsEdns0() == nil {
+		// SetRcode shares msg.Extra; the copy keeps the cached records' slice
+		// from being appended to.
+		out.Extra = append([]dns.RR(nil), out.Extra...)
+		out.SetEdns0(dnsutil.DefaultMsgSize, do)
+		dnsutil.SetEDE(out, edeCode, edeText)
+	}
+	return out
 }
 
 // respCnameHasType reports whether the CNAME-chase response
